@@ -35,6 +35,7 @@ from harness.common import (MachineryError, Verdict, import_trimesh, pmap, seed,
                             tier_from_args)
 
 PROP = "C09"
+TLC_TIMEOUT = 3600      # per TLC run; generous because the box is shared (a timeout is a machinery error, never a verdict)
 
 CFG = """CONSTANTS
   Nodes <- {nodes}
@@ -502,16 +503,25 @@ def judge_traces(tier, V, cov, d, rec_events, rec_mats, own_events, own_mats):
     with open(os.path.join(d, "cases.ndjson"), "w") as f:
         for c in cases:
             f.write(json.dumps(c) + "\n")
-    r = tlc.run(d, "TraceSceneGraph", "INIT Init\nNEXT Next\nINVARIANT Tell\nINVARIANT Acyclic\nCHECK_DEADLOCK FALSE\n", workers=1, timeout=1500)
-    if r.violated == "Acyclic":
-        V.violation("ForestInv(recorded state)", {"what": "a logged parent map contains a cycle although the drivers only asked for acyclic updates"})
-        return r.distinct, len(cases)
+    r = tlc.run(d, "TraceSceneGraph", "INIT Init\nNEXT Next\nINVARIANT Tell\nCHECK_DEADLOCK FALSE\n", workers=1, timeout=1500)
     tlc.must(r, "trace")
     if len(r.printed) < len(cases):
         raise MachineryError("TLC judged %d of %d recorded gets" % (len(r.printed), len(cases)))
-    nconn, nconn_own, longest = 0, {}, 0
+    nconn, nconn_own, longest, ncyc = 0, {}, 0, 0
     for out in r.printed:
         kind, ev, edge = src[out["id"]]
+        if out["cyc"]:
+            # the logged parent map has a cycle on the walk from one of the two frames: not a forest
+            if kind == "own":
+                raise MachineryError("the driver's own parent map contains a cycle: %r" % (ev["par"],))
+            if tier == "thorough":
+                ncyc += 1          # the repository's tests may build whatever they like: outside the property
+            elif ncyc == 0:
+                ncyc += 1
+                V.violation("ForestInv(recorded state)", {"what": "the real parent map logged by the recorder contains a cycle "
+                                                                  "although the random driver only asked for acyclic updates",
+                                                          "parents": ev["parents"]})
+            continue
         if not out["conn"]:
             continue
         nconn += 1
@@ -549,6 +559,7 @@ def judge_traces(tier, V, cov, d, rec_events, rec_mats, own_events, own_mats):
     cov["own_driver_gets_connected"] = nconn_own
     cov["recorded_gets_connected"] = nconn - sum(nconn_own.values())
     cov["longest_path_judged"] = longest
+    cov["recorded_gets_on_cyclic_parent_maps_not_judged"] = ncyc
     return r.distinct, len(cases)
 
 
@@ -603,25 +614,30 @@ def main(argv):
     #    quick: the depth-3 run with geometry doubles as the state-cover emission (one run instead of two);
     #    the deeper runs without emission belong to the thorough tier.
     if not quick:
-        jobs.append(("mc", cfg(depth=5), dict(timeout=2400), False))
+        jobs.append(("mc", cfg(depth=5), dict(timeout=TLC_TIMEOUT, java_opts=["-Xmx6g"]), False))
     # 2. behaviours emitted by TLC
     # (a) state cover: one shortest history per distinct model state (caches included); all invariants checked
-    jobs.append(("cover", cfg(depth=dc, geoms="Geoms1", invs=MC_INVS + "\nINVARIANT EmitAll"), dict(workers=1, timeout=2400), True))
+    #     RefLaws (laws of the reference alone, the costly invariant, indifferent to geometry names) is checked by
+    #     the 16-worker run above in thorough and by a run of its own, beside the others, in quick
+    cover_invs = MC_INVS.replace("\nINVARIANT RefLaws", "")
+    if quick:
+        jobs.append(("laws", cfg(depth=3, invs="INVARIANT RefLaws"), dict(workers=1, timeout=TLC_TIMEOUT), False))
+    jobs.append(("cover", cfg(depth=dc, geoms="Geoms1", invs=cover_invs + "\nINVARIANT EmitAll"), dict(workers=1, timeout=TLC_TIMEOUT), True))
     # (b) every history of length 3 (no VIEW: hist is part of the state)
-    jobs.append(("leaf", cfg(depth=3, view=False, invs="INVARIANT EmitLeaf\n" + EMIT_GP), dict(workers=1, timeout=2400), True))
+    jobs.append(("leaf", cfg(depth=3, view=False, invs="INVARIANT EmitLeaf\n" + EMIT_GP), dict(workers=1, timeout=TLC_TIMEOUT), True))
     # (c) simulated long histories on 5 nodes, 3 generators.  TLC's simulator evaluates invariants on every
     #     successor of the last state, so each simulated trace yields ~100 emitted behaviours sharing a prefix
     jobs.append(("sim", cfg(nodes="Nodes5", gens="Gens3", geoms="Geoms1", depth=dsim, view=False, invs="INVARIANT EmitLeaf\n" + EMIT_GP),
-                 dict(workers=1, simulate=f"num={nsim}", depth=dsim + 1, seed=seed() + 7, timeout=2400), True))
+                 dict(workers=1, simulate=f"num={nsim}", depth=dsim + 1, seed=seed() + 7, timeout=TLC_TIMEOUT), True))
     # (d) from a pre-built chain world -> a -> b -> c: every history of length 3 (and a deeper state cover in
     #     thorough), so that "multi-hop query, re-parent, query again" needs no set-up steps
-    jobs.append(("chain", cfg(depth=3, view=False, shape="chain", invs="INVARIANT EmitLeaf\n" + EMIT_GP), dict(workers=1, timeout=2400), True))
+    jobs.append(("chain", cfg(depth=3, view=False, shape="chain", invs="INVARIANT EmitLeaf\n" + EMIT_GP), dict(workers=1, timeout=TLC_TIMEOUT), True))
     if not quick:
-        jobs.append(("chaincover", cfg(depth=4, shape="chain", invs="INVARIANT EmitAll\n" + EMIT_GP), dict(workers=1, timeout=2400), True))
+        jobs.append(("chaincover", cfg(depth=4, shape="chain", invs="INVARIANT EmitAll\n" + EMIT_GP), dict(workers=1, timeout=TLC_TIMEOUT), True))
     # spec self-tests: each seeded deviation must make TLC report GetIsPathProduct (from the chain the
     # shortest counterexamples are 2-3 steps, so these runs stop early)
     for flag in ("ghost", "forget", "keep"):
-        jobs.append(("self_" + flag, cfg(depth=5, shape="chain", invs=EMIT_GP, **{flag: True}), dict(workers=1, timeout=2400), False))
+        jobs.append(("self_" + flag, cfg(depth=5, shape="chain", invs=EMIT_GP, **{flag: True}), dict(workers=1, timeout=TLC_TIMEOUT), False))
 
     # the recorder-driven trace (a subprocess) runs beside the TLC jobs; so do this check's own histories
     from concurrent.futures import ThreadPoolExecutor
@@ -643,6 +659,8 @@ def main(argv):
     cov["spec_selftests"] = selftests
     if not quick:
         note("mc nodes=4 gens=2 depth=5", tlc.must(done["mc"][0], "mc"))
+    else:
+        note("laws of the reference (RefLaws) depth=3", tlc.must(done["laws"][0], "laws"))
     behs, fam_n = [], {}
     for name, label in (("cover", f"mc with geometry + emit state cover depth={dc}"), ("leaf", "emit all histories depth=3"),
                         ("sim", f"simulate num={nsim} depth={dsim}"), ("chain", "emit all histories depth=3 from a chain"),
